@@ -56,10 +56,26 @@ def body(ctx):
     # 3: random sessions
     n = 150 if ctx.quick else 3000
     specs = [scen.gen_session(rng, i, big=(i % 10 == 0), adversarial=(i % 2 == 1)) for i in range(n)]
+    # families that do not depend on the draw: a host-initiated close while the device still has a WRITE in flight (a pull whose local
+    # sink fails after k records, an eager device), a refused OPEN, a generator abandoned after k items, zero-length WRITEs
+    fam = []
+    for k in (1, 2, 3):
+        for eager in (True, False):
+            for sizes in ([50] * 6 + [65536] * 4, [4096] * 20, [1] * 8 + [4000] * 10):
+                fam.append(dict(seed=ctx.seed + 500 + k, maxdata=4096, rid=('plus', 'mirror', 'random')[k % 3], frag='whole', eager=eager, reorder=bool(k % 2),
+                                ops=[dict(api='pull', path='/big', size=30000, data_sizes=list(sizes), cuts=[3000 * j_ for j_ in range(1, 12)], dest=['raise', k], cb=None),
+                                     dict(api='shell', decode=False, cmd='after', chunks=[b'ok'.hex()])]))
+    for k in (0, 1, 2):
+        fam.append(dict(seed=ctx.seed + 600 + k, maxdata=4096, rid='plus', frag='whole', eager=bool(k % 2),
+                        ops=[dict(api='streaming_shell', decode=False, cmd='left', chunks=[b'a'.hex(), b''.hex(), b'c'.hex(), b'd'.hex()], take=k),
+                             dict(api='shell', decode=False, cmd='r', chunks=[b'x'.hex()], refuse=True, read_timeout_s=1.0),
+                             dict(api='reboot', fastboot=bool(k % 2)),
+                             dict(api='shell', decode=False, cmd='after', chunks=[b''.hex(), b'ok'.hex()])]))
+    specs = fam + specs
     corpus = scen.run_corpus(specs)
     traces = [c[3] for c in corpus]
     ver, r = tlc.validate_traces('TraceEnv', traces)
-    ctx.add_tlc(r, 'TraceEnv over %d random sessions' % n)
+    ctx.add_tlc(r, 'TraceEnv over %d fixed-family and %d random sessions' % (len(fam), n))
     okn = 0
     for (i, l, v) in ver:
         if v == 'ok':
